@@ -251,13 +251,15 @@ def finally' (p : M α) (cleanup : Prog Unit) : M α :=
 /-- result of `p` as a value -/
 def attempt (p : M α) : Prog (Except Err α) := p
 
-@[simp] theorem pure_def (a : α) : (pure a : M α) = Prog.ret (.ok a) := rfl
-@[simp] theorem throw_def (e : Err) : (throw e : M α) = Prog.ret (.error e) := rfl
+theorem pure_def (a : α) : (pure a : M α) = Prog.ret (.ok a) := rfl
+theorem throw_def (e : Err) : (throw e : M α) = Prog.ret (.error e) := rfl
 @[simp] theorem bind_def (p : M α) (f : α → M β) : p >>= f = bind' p f := rfl
-@[simp] theorem bind_error (e : Err) (f : α → M β) : bind' (Prog.ret (.error e)) f = Prog.ret (.error e) := rfl
-@[simp] theorem bind_ok (a : α) (f : α → M β) : bind' (Prog.ret (.ok a)) f = f a := rfl
-@[simp] theorem ofExcept_ok (a : α) : ofExcept (.ok a : Except Err α) = Prog.ret (.ok a) := rfl
-@[simp] theorem ofExcept_error (e : Err) : ofExcept (.error e : Except Err α) = Prog.ret (.error e) := rfl
+-- (the simp normal form keeps `pure`/`throw`, which are typed in `M`: rewriting them to
+-- `Prog.ret` leaves terms that are only well-typed after unfolding `M`)
+@[simp] theorem bind_error (e : Err) (f : α → M β) : bind' (throw e : M α) f = throw e := rfl
+@[simp] theorem bind_ok (a : α) (f : α → M β) : bind' (pure a : M α) f = f a := rfl
+@[simp] theorem ofExcept_ok (a : α) : ofExcept (.ok a : Except Err α) = (pure a : M α) := rfl
+@[simp] theorem ofExcept_error (e : Err) : ofExcept (.error e : Except Err α) = (throw e : M α) := rfl
 @[simp] theorem liftM_except (x : Except Err α) : (liftM x : M α) = ofExcept x := rfl
 @[simp] theorem monadLift_except (x : Except Err α) : (monadLift x : M α) = ofExcept x := rfl
 
